@@ -60,7 +60,19 @@ var receivers = []recvKind{
 	{"number", "Number", func() r.Element { return value.NewNumber(zv.Float64("rn")) }},
 	{"bool", "Bool", func() r.Element { return value.NewBool(zv.Bool("rb")) }},
 	{"null", "Null", func() r.Element { return value.NewNull() }},
+	{"method value", "Function", func() r.Element {
+		return value.NewFunction(func(receiver r.Element, params []r.Element) (r.Element, error) { return value.NewNull(), nil })
+	}},
+	{"type", "ClassModel", func() r.Element { return value.NewClassModel("某类") }},
+	{"exception", "Exception", func() r.Element { return value.NewException(textPool()) }},
+	{"object", "Object", func() r.Element {
+		return value.NewObject(value.NewClassModel("某类"), map[string]r.Element{"甲": value.NewNumber(zv.Float64("rp"))})
+	}},
+	{"host value", "GoValue", func() r.Element { return value.NewGoValue("标签", 5) }},
 }
+
+// member names tried on receivers without a member table
+var genericNames = []string{"长度", "内容", "自身", "甲", "数目"}
 
 func mkArg(name string) r.Element {
 	switch zv.Choose(6) {
@@ -79,6 +91,9 @@ func mkArg(name string) r.Element {
 }
 
 func pick(names []string) string {
+	if len(names) == 0 {
+		names = genericNames
+	}
 	k := zv.Choose(len(names) + 1)
 	if k == len(names) {
 		return "无此成员"
